@@ -31,7 +31,7 @@ type l2Spec struct {
 	SnapDPoS   bool
 	SnapCR     bool
 	Decisions  bool
-	NoA        bool // C24: no reorganising node
+	NoA        bool   // C24: no reorganising node
 	From       uint32 // first fork point of node A (0 = CRVotingStartHeight+1, l2FromV2Active = shortly before DPoS v2 activation)
 	Trace      bool
 	Profile    int // 1 = committee-focused losing branches
